@@ -41,6 +41,7 @@ struct Options
     std::vector<std::string> roots;
     std::vector<std::string> sels;
     std::vector<std::string> recs;
+    std::vector<std::string> calls;    // select functions whose body calls / names a function matching
     bool allEnums = true;
 };
 Options g_opt;
@@ -138,11 +139,12 @@ public:
     {
         for (auto& s : g_opt.sels) selRe.emplace_back(s);
         for (auto& s : g_opt.recs) recRe.emplace_back(s);
+        for (auto& s : g_opt.calls) callRe.emplace_back(s);
     }
 
     ASTContext& ctx;
     SourceManager& sm;
-    std::vector<llvm::Regex> selRe, recRe;
+    std::vector<llvm::Regex> selRe, recRe, callRe;
     json::Array functions;
     json::Object records;
     json::Object enums;
@@ -839,11 +841,50 @@ public:
         }
     };
 
+    // does the body (or a constructor's member initialisers) reference a function whose qualified
+    // name matches one of the --calls patterns?  (who-may-call queries)
+    struct CallFinder : RecursiveASTVisitor<CallFinder>
+    {
+        Extractor& x;
+        bool found = false;
+        explicit CallFinder(Extractor& e)
+          : x(e)
+        {
+        }
+        bool shouldVisitTemplateInstantiations() const { return true; }
+        bool VisitDeclRefExpr(DeclRefExpr* e)
+        {
+            if (auto const* fd = dyn_cast<FunctionDecl>(e->getDecl()))
+                if (x.matches(x.callRe, qualName(fd))) found = true;
+            return !found;
+        }
+        bool VisitMemberExpr(MemberExpr* e)
+        {
+            if (auto const* fd = dyn_cast<FunctionDecl>(e->getMemberDecl()))
+                if (x.matches(x.callRe, qualName(fd))) found = true;
+            return !found;
+        }
+        bool VisitUnresolvedLookupExpr(UnresolvedLookupExpr* e)
+        {
+            for (auto const* d : e->decls())
+                if (auto const* nd = dyn_cast<NamedDecl>(d))
+                    if (x.matches(x.callRe, qualName(nd))) found = true;
+            return !found;
+        }
+    };
+
     bool selected(FunctionDecl const* fd, std::string const& qn)
     {
         if (!fd->doesThisDeclarationHaveABody()) return false;
         if (!inRoots(fd->getLocation())) return false;
-        return matches(selRe, qn);
+        if (matches(selRe, qn)) return true;
+        if (!callRe.empty())
+        {
+            CallFinder cf(*this);
+            cf.TraverseDecl(const_cast<FunctionDecl*>(fd));
+            return cf.found;
+        }
+        return false;
     }
 
     void enqueue(FunctionDecl const* fd, int parent, std::string qn)
@@ -1315,7 +1356,11 @@ public:
                 {
                     CXXCtorInitializer const* ini = el.castAs<CFGInitializer>().getInitializer();
                     ev["k"] = "init";
-                    if (ini->isAnyMemberInitializer()) ev["field"] = ini->getAnyMember()->getNameAsString();
+                    if (ini->isAnyMemberInitializer())
+                    {
+                        ev["field"] = ini->getAnyMember()->getNameAsString();
+                        ev["ftype"] = typeStr(ini->getAnyMember()->getType(), ctx);
+                    }
                     else if (ini->isBaseInitializer())
                         ev["base"] = typeStr(QualType(ini->getBaseClass(), 0), ctx);
                     ev["written"] = ini->isWritten();
@@ -1699,6 +1744,7 @@ int main(int argc, char** argv)
         else if (a == "--root" && i + 1 < argc) g_opt.roots.push_back(argv[++i]);
         else if (a == "--sel" && i + 1 < argc) g_opt.sels.push_back(argv[++i]);
         else if (a == "--rec" && i + 1 < argc) g_opt.recs.push_back(argv[++i]);
+        else if (a == "--calls" && i + 1 < argc) g_opt.calls.push_back(argv[++i]);
         else if (a == "--overlay" && i + 1 < argc)
         {
             std::string o = argv[++i];
